@@ -10,6 +10,7 @@ import (
 	"fmt"
 	"log"
 	"math/rand"
+	"net/url"
 	"os"
 	"reflect"
 	"time"
@@ -60,3 +61,15 @@ func Stderr() { fmt.Fprintln(os.Stderr, "x") }
 
 func Logger() { log.Printf("x") }
 
+func NumberConversion(n json.Number) float64 {
+	f, _ := n.Float64()
+	return f
+}
+
+func URLRoundTrip(s string) string {
+	u, err := url.Parse(s)
+	if err != nil {
+		return s
+	}
+	return u.String()
+}
